@@ -166,7 +166,7 @@ class Check:
         return 0
 
 
-def main_wrapper(pid, fn):
+def main_wrapper(pid, fn, safety_net=None):
     """run a property check function(Check) with crash handling"""
     tier = None
     args = sys.argv[1:]
@@ -178,5 +178,17 @@ def main_wrapper(pid, fn):
     except Exception as e:  # engine failure = inconclusive, never green, never a VIOLATION
         traceback.print_exc()
         chk.note_inconclusive("engine error: %r" % (e,))
+    # safety net: if something could not be decided (engine limitation, unexpected code shape, solver unknown) and no
+    # violation was established, run the property's native battery on the real build; a reproduced failure is reported
+    unsettled = chk.inconclusive or any(not o.ok() and o.verdict != "violated" for o in chk.obs)
+    if safety_net is not None and unsettled and not chk.violations:
+        try:
+            hit = safety_net(chk)
+            chk.extra["safety_net_battery"] = "failure reproduced" if hit else "passed"
+            if hit:
+                chk.violation("native battery", hit.get("what", "native battery failure"), hit)
+        except Exception as e:
+            traceback.print_exc()
+            chk.note_inconclusive("safety-net battery failed to run: %r" % (e,))
     rc = chk.finish()
     sys.exit(rc)
